@@ -280,6 +280,15 @@ class Ctx:
         return res.reshape(arr.shape)
 
     # ------------------------------------------------------------------ assertions
+    def _targeted(self, i, what) -> bool:
+        """Replay: evaluate only the targeted assertion (matched by sequence number or by its description)."""
+        t = self.replay_target
+        if t is None:
+            return True
+        if isinstance(t, tuple):
+            return i == t[0] or what == t[1]
+        return i == t
+
     def _next(self, what):
         i = self.n_assert
         self.n_assert += 1
@@ -289,7 +298,7 @@ class Ctx:
         """Obligation: a == b element-wise for all admissible values."""
         i = self._next(what)
         if self.mode == "replay":
-            if self.replay_target is not None and self.replay_target != i:
+            if not self._targeted(i, what):
                 return
             ta = torch.as_tensor(_nested(a), dtype=torch.float64)
             tb = torch.as_tensor(_nested(b), dtype=torch.float64)
@@ -368,7 +377,7 @@ class Ctx:
         """Obligation: boolean tensor / term is true for all admissible values."""
         i = self._next(what)
         if self.mode == "replay":
-            if self.replay_target is not None and self.replay_target != i:
+            if not self._targeted(i, what):
                 return
             ok = bool(torch.as_tensor(_nested(cond)).all())
             if not ok:
@@ -411,7 +420,7 @@ class Ctx:
         """Obligation: |a - b| <= bound element-wise (decided on terms; the float kernels are not asked)."""
         if self.mode == "replay":
             i = self._next(what)
-            if self.replay_target is not None and self.replay_target != i:
+            if not self._targeted(i, what):
                 return
             ta = torch.as_tensor(_nested(a), dtype=torch.float64)
             tb = torch.as_tensor(_nested(b), dtype=torch.float64)
@@ -548,14 +557,15 @@ def _run_path(fn, params, tier, seed, name, override, path_no, extra_pre=()):
     _dg.round_decimals = _orig_round
     # ---------------- replay candidates against the real code without the engine
     for c in ctx.candidates:
-        rep = replay(fn, params, tier, seed, c.model, c.index if c.kind != "crash" else None)
+        rep = replay(fn, params, tier, seed, c.model, (c.index, c.what) if c.kind != "crash" else None)
         sig = f"{name}|{c.what}|{c.kind}|{c.detail}"
         if c.kind == "crash":
             reproduced = rep.get("crash") is not None and rep["crash"]["exc"] == crash["exc"]
             observed = rep.get("crash")
         else:
-            reproduced = any(f["index"] == c.index for f in rep["failures"]) or (rep.get("crash") is not None)
-            observed = [f for f in rep["failures"] if f["index"] == c.index] or rep.get("crash")
+            same = [f for f in rep["failures"] if f["index"] == c.index or f["what"] == c.what]
+            reproduced = bool(same) or (rep.get("crash") is not None)
+            observed = same or rep.get("crash")
         v = dict(name=name, params=params, what=c.what, kind=c.kind, detail=c.detail, reproduced=bool(reproduced), observed=observed, path=path_no,
                  model={k: (float(v_) if not isinstance(v_, bool) else v_) for k, v_ in c.model.items() if v_ is not None}, signature=sig)
         if reproduced:
